@@ -33,6 +33,24 @@ def instants(a, b):
     yield b
 
 
+def re_search(pattern, flags, text):
+    import re
+    return re.compile(pattern, flags).search(text) is not None
+
+
+def dict_without(d, *keys):
+    return {k: v for k, v in d.items() if k not in keys}
+
+
+def url_part(name, url):
+    from urllib.parse import urlparse
+    return getattr(urlparse(url), name)
+
+
+def jv_list(v):
+    return v
+
+
 def fresh(x):
     return True
 
@@ -41,4 +59,4 @@ def allocated(x):
     return True
 
 
-__all__ = ["EPOCH", "ms_aligned", "floor_to_ms", "instants", "fresh", "allocated"]
+__all__ = ["url_part", "re_search", "dict_without", "jv_list", "EPOCH", "ms_aligned", "floor_to_ms", "instants", "fresh", "allocated"]
